@@ -90,6 +90,19 @@ def proved_tier(run, pid, cfg, tier, collect=None):
                 run.notes.append('locked clauses no longer generated for %s (code structure changed): %s' % (key, missing[:8]))
         if collect is not None:
             collect[key] = sorted(c for c, d in clauses.items() if d['status'] == 'discharged')
+    # CPython cross-check of the same contracts: ensures clauses evaluated concretely on the real functions (seeded random inputs)
+    if items:
+        from engine.pyvc import crosscheck
+        filt = {key: (inc, exc) for _, key, inc, exc in cfg.get('pyvc', ())}
+        stats, viol = crosscheck.crosscheck([(k, c) for k, c, _, _ in items], run.seed, cases=40 if tier == 'quick' else 300)
+        nev = sum(v.get('clauses_evaluated', 0) for v in stats.values())
+        run.extra['contract_crosscheck'] = {'what': 'ensures clauses of the sidecar contracts evaluated concretely (engine/pyvc/concrete.py) on the real functions, seeded random in-domain inputs',
+                                            'per_contract': stats, 'clauses_evaluated': nev}
+        for key, clause, wit, detail in viol:
+            inc, exc = filt.get(key, (None, None))
+            nm = '%s/ensures/%s' % (key, clause)
+            if (inc is None or re.search(inc, nm)) and not (exc and re.search(exc, nm)):
+                run.violation('%s/CONTRACT-%s' % (key.split('#')[0], clause), 'contract clause `%s` is false on a real run of %s: %s' % (clause, key, detail), witness=wit)
     for hook in cfg.get('extra_proved', ()):
         modname, fname = hook.rsplit('.', 1)
         getattr(importlib.import_module(modname), fname)(run, pid, tier, lock, collect)
